@@ -436,11 +436,13 @@ package memefish
 // @   ensures !noPanic ==> l.Token.Kind != "<bad>"
 // @   ensures[C12,C14] punct1: len(l.Token.Kind) == 1 ==> l.Token.End == l.Token.Pos + 1 && l.Buffer[l.Token.Pos] == l.Token.Kind[0]
 // @   ensures[C10,C14] shr: l.Token.Kind == ">>" ==> l.Token.End == l.Token.Pos + 2
+// @   ensures[C10] gap: (len(l.Token.Space) > 0 || len(l.Token.Comments) > 0) == (l.Token.Pos > old(l.pos))
 // @   ensures l.Token.Kind != ""
 // @   panics when !noPanic
 // @   modifies l.pos, l.Token.*, l.lastTokenKind, l.dotIdent, l.File.lines
 // @   loop 0 invariant LexInv(l) && old(l.pos) <= l.pos && l.pos == triviaEnd(l, old(l.pos))
 // @   loop 0 invariant commentsOK(l, old(l.pos))
+// @   loop 0 invariant[C10] gapl: (len(l.Token.Comments) > 0) == (l.pos > old(l.pos))
 // @   loop 0 invariant l.lastTokenKind == old(l.Token.Kind)
 // @   loop 0 decreases len(l.Buffer) - l.pos
 
